@@ -2,14 +2,16 @@
 
 Model (lean/PsiModel/DbField.lean, `Float` instance, `psidriver calib`): every stimulus is
 `polarity * sf(level) * proto(params, k)`, optionally followed by `lfilter` started from a state that is zero
-(IIR noise factories, after fixes C08_fix_1/2) or fully flushed before the first returned sample (FIR factories).
+(notch filter, after fix C08_fix_1), not scaled but decayed below 1e-80 after the discarded second
+(BandlimitedNoiseFactory) or fully flushed before the first returned sample (FIR factories).
 The prototype cells (unit draws of the real RandomState, filter coefficients of the real design routines, the
 unit-level chirp / click) come from the real code's own primitives; the model supplies the scaling structure.
 
 Oracle (the property on the implementation): polarity -1 negates every sample bit-exactly; +d dB multiplies
 every sample by 10^(d/20) to 1e-9 of full scale (1e-6 for float32 wav playback); documented level definitions:
 tone 1e-9 dB on whole cycles (0.1 dB otherwise), SAM components 1e-9 relative on whole cycles, click amplitude
-exact, band-limited click 0.01 dB over its 1 s period, chirp / broadband / IIR band-limited noise 0.5 dB on 1 s.
+exact, band-limited click 0.01 dB over its 1 s period, chirp / broadband noise 0.5 dB on 1 s, IIR band-limited and
+shaped noise 1 dB on 1 s (the tolerance of the library's own tests/test_stim_noise.py).
 """
 import math
 import os
@@ -76,7 +78,7 @@ def build(c, L, pol, cal=None):
             return stim.ChirpFactory(fs, c['f0'], c['f1'], c['n'] / fs, L, cal, window=c['window']).waveform
         return stim.chirp(fs, c['f0'], c['f1'], c['n'] / fs, L, calibration=cal, window=c['window'])
     if k == 'click':
-        return stim.ClickFactory(fs, c['n'] / fs, L, pol, cal).waveform
+        return stim.ClickFactory(fs, (c['n'] + 0.5) / fs, L, pol, cal).waveform     # int(fs*duration) = n
     if k == 'blclick':
         if c.get('factory'):
             return stim.BandlimitedClickFactory(fs, c['flb'], c['fub'], c['win'], L, calibration=cal).waveform
@@ -169,9 +171,17 @@ def level_definition(c, cal, L, a):
     elif k == 'bln' and n >= fs * 0.999:
         sf = float(np.asarray(cal.get_mean_sf(c['fl'], c['fh'], L)))
         rms = float(util.rms(a))
-        if abs(db_of(rms) - db_of(sf)) > 0.5:
+        # 1 dB: the tolerance of the library's own tests/test_stim_noise.py (the band-pass is designed with 1 dB of
+        # pass-band ripple, and the 'filter_sf' normalisation is approximate)
+        if abs(db_of(rms) - db_of(sf)) > 1.0:
             return (f'band-limited noise RMS {rms!r} vs get_mean_sf {sf!r}: {db_of(rms) - db_of(sf):.3f} dB '
-                    f'(tolerance 0.5 dB on 1 s)')
+                    f'(tolerance 1 dB on 1 s)')
+    elif k == 'shaped' and n >= fs * 0.999:
+        sf = float(np.asarray(cal.get_mean_sf(0, fs / 2, L)))
+        rms = float(util.rms(a))
+        if abs(db_of(rms) - db_of(sf)) > 1.0:
+            return (f'shaped noise RMS {rms!r} vs get_mean_sf {sf!r}: {db_of(rms) - db_of(sf):.3f} dB '
+                    f'(tolerance 1 dB on 1 s)')
     elif k == 'wav':
         sf = float(np.asarray(cal.get_sf(1e3, L)))
         if c['fs'] == 20000:
@@ -423,7 +433,9 @@ class C08(FloatSpec):
         one = f2b(1.0)
         if k in ('bbn', 'notch'):
             nf = stim.BroadbandNoiseFactory(fs=fs, level=L, seed=seed, polarity=1, calibration=cal)
-            low, high = nf.low, nf.high
+            # the model computes the bounds -sqrt(3)*sf, sqrt(3)*sf from the mean scale factor itself
+            sf = float(np.asarray(cal.get_mean_sf(0, fs, L)))
+            low, high = 'L:' + f2b(sf), 'H:' + f2b(sf)
             if k == 'bbn':
                 b, a, z0, discard, pin, pout = [1.0], [1.0], 'zero', 0, pol, 1.0
             else:
@@ -451,7 +463,9 @@ class C08(FloatSpec):
         b = np.concatenate([b, np.zeros(m - len(b))]) / a[0]
         a = np.concatenate([a, np.zeros(m - len(a))]) / a[0]
         u = np.random.RandomState(seed).random_sample(discard + n)
-        return (f'filt {f2b(pin)} {f2b(pout)} {f2b(low)} {f2b(high)} {f2b(b[0])} {fl(b[1:])} {fl(a[1:])} {z0} '
+        if not isinstance(low, str):
+            low, high = f2b(low), f2b(high)
+        return (f'filt {f2b(pin)} {f2b(pout)} {low} {high} {f2b(b[0])} {fl(b[1:])} {fl(a[1:])} {z0} '
                 f'{discard} {fl(u)}')
 
     # ---------------------------------------------------------------- implementation
